@@ -256,7 +256,7 @@ pub fn run(ctx: &Ctx) {
 
 fn run_shard(ctx: &Ctx, shard: u64, nshards: u64) -> Report {
     let mut rep = Report::new("C09", &ctx.tier, ctx.seed);
-    rep.rule = "inputs: (a) every string of 0..2 characters over 128 ASCII + 3 multi-byte code points, and every 3-character string over the 64-letter alphabet + 10 special characters, as the base64 segment of a key text; (b) after 0..2 whole blocks, every tail of length 1..4 with every character at the last two positions over all 131 characters; (c) canonical encodings of byte strings of length 0..300 and their single-character substitutions / padding / extra segments, through every text type (17 per backend) of every backend; serde form checked on each. non-trivial = input longer than its header; distinct = distinct (text kind, generator, outcome class, length bucket)".into();
+    rep.rule = "inputs: (a) every string of 0..2 characters over 128 ASCII + 3 multi-byte code points, and every 3-character string over the 64-letter alphabet + 10 special characters, as the base64 segment of a key text; (b) after 0..2 whole blocks, every tail of length 1..4 with every character at the last two positions over all 131 characters; (c) canonical encodings of byte strings of length 0..300 and their single-character substitutions / padding / extra segments, through every text type (19 per backend) of every backend; serde form checked on each; (d) the typed keys Key<V, K> of every kind and backend on valid key texts and on strings with bytes appended, prepended, removed or repeated, white space and dots: whatever is accepted must re-serialise to itself. non-trivial = input longer than its header; distinct = distinct (text kind, generator, outcome class, length bucket)".into();
     let types = impls::text_types();
     let mut r = Runner { rep, model: Model::spawn(&ctx.model), types: &types, by_value: HashMap::new(), n: 0, seq: 0, shard, nshards };
     let find = |b: &str, k: &str| types.iter().position(|t| t.backend == b && t.kind == k).unwrap();
@@ -389,6 +389,95 @@ fn run_shard(ctx: &Ctx, shard: u64, nshards: u64) -> Report {
                 };
                 let ts: String = t.into_iter().collect();
                 r.one(ti, &ts, origin);
+            }
+        }
+    }
+    // (d) the typed keys (Key<V, K>: FromStr and Display through KeyText plus the backend's decoder): whatever string is
+    //     accepted re-serialises to itself.  Valid key texts of every kind and, from each, strings that a decoder reading
+    //     only a prefix, ignoring a tail or normalising its input would also accept.
+    if shard == 0 {
+        let bs = crate::lab::backends();
+        for b in &bs {
+            let kps = crate::tok::keypairs(b, &mut g, 2);
+            let mut valid: Vec<(&'static str, String)> = vec![];
+            for _ in 0..2 {
+                if let Ok(t) = (b.key_text)("local", &g.bytes(32)) {
+                    valid.push(("local", t));
+                }
+            }
+            for kp in kps.iter().take(if b.name == "v1" { 1 } else { 2 }) {
+                for (kind, bytes) in [("public", &kp.pk), ("secret", &kp.sk)] {
+                    if b.name == "v1" {
+                        // v1: the signing kinds take 2048-bit keys; the corpus pair is one
+                        if let Ok(t) = (b.key_text)(kind, bytes) {
+                            valid.push((kind, t));
+                        }
+                    } else {
+                        for k2 in [kind, if kind == "public" { "pke-public" } else { "pke-secret" }] {
+                            if let Ok(t) = (b.key_text)(k2, bytes) {
+                                valid.push((k2, t));
+                            }
+                        }
+                    }
+                }
+            }
+            for (kind, text) in &valid {
+                let body_at = text.rfind('.').unwrap() + 1;
+                let (head, body) = text.split_at(body_at);
+                let data = crate::lab::unb64(body).unwrap_or_default();
+                let mut cands: Vec<(String, &'static str)> = vec![(text.clone(), "valid")];
+                // bytes appended (1..=64 and a long tail), canonical text
+                for extra in [1usize, 2, 3, 16, 31, 32, 33, 48, 64, 200] {
+                    let mut d = data.clone();
+                    d.extend(g.bytes(extra));
+                    cands.push((format!("{head}{}", ref_encode(&d)), "bytes-appended"));
+                    let mut d = data.clone();
+                    d.extend(vec![0u8; extra]);
+                    cands.push((format!("{head}{}", ref_encode(&d)), "zeros-appended"));
+                    let mut d = vec![0u8; extra];
+                    d.extend(&data);
+                    cands.push((format!("{head}{}", ref_encode(&d)), "zeros-prepended"));
+                    if data.len() > extra {
+                        cands.push((format!("{head}{}", ref_encode(&data[..data.len() - extra])), "bytes-removed"));
+                        cands.push((format!("{head}{}", ref_encode(&data[extra..])), "bytes-removed-front"));
+                    }
+                }
+                // the key repeated, the text with surrounding white space, a trailing dot, the body doubled
+                let mut d = data.clone();
+                d.extend(&data);
+                cands.push((format!("{head}{}", ref_encode(&d)), "key-twice"));
+                cands.push((format!("{text} "), "space-after"));
+                cands.push((format!(" {text}"), "space-before"));
+                cands.push((format!("{text}\n"), "newline-after"));
+                cands.push((format!("{text}."), "dot-after"));
+                cands.push((format!("{text}{body}"), "body-twice"));
+                for (s, origin) in cands {
+                    r.rep.evaluations += 1;
+                    r.rep.count(&format!("typed-key.{origin}"));
+                    match (b.key_reprint)(kind, &s) {
+                        Ok(back) => {
+                            r.rep.count("typed-key.accepted");
+                            if origin == "valid" {
+                                r.rep.nontrivial(format!("typed|{}|{kind}", b.name));
+                            }
+                            if back != s {
+                                r.rep.violation(
+                                    &format!("typed-key.{}.{kind}.not-canonical", b.name),
+                                    format!("{} Key<{kind}>::from_str accepts a string ({origin}, {} characters) that re-serialises to a different one ({} characters)", b.name, s.len(), back.len()),
+                                    json!({"op": "typed-key", "backend": b.name, "kind": kind, "input": s, "reprinted": back}),
+                                );
+                            }
+                        }
+                        Err(e) => {
+                            r.rep.count(&format!("typed-key.rejected.{e}"));
+                            if origin == "valid" {
+                                r.rep.violation(&format!("typed-key.{}.{kind}.rejects-own", b.name), format!("{} Key<{kind}>::from_str rejects ({e}) the text it printed", b.name), json!({"op": "typed-key", "backend": b.name, "kind": kind, "input": s}));
+                            } else if e == "panic" {
+                                r.rep.violation(&format!("typed-key.{}.{kind}.panic", b.name), format!("{} Key<{kind}>::from_str panicked on a {origin} string", b.name), json!({"op": "typed-key", "backend": b.name, "kind": kind, "input": s}));
+                            }
+                        }
+                    }
+                }
             }
         }
     }
